@@ -168,10 +168,13 @@ fn to_pattern(field: &[AttrChar]) -> Option<Pattern> {
         type Item = PatternChar;
         fn next(&mut self) -> Option<PatternChar> {
             for c in &mut self.inner {
-                let quoted = std::mem::replace(&mut self.next_quoted, false);
                 if c.is_quoting {
+                    // Quoting characters are not part of the pattern, so a
+                    // preceding backslash escapes the character after them.
                     continue;
-                } else if quoted || c.is_quoted || c.origin == Origin::HardExpansion {
+                }
+                let quoted = std::mem::replace(&mut self.next_quoted, false);
+                if quoted || c.is_quoted || c.origin == Origin::HardExpansion {
                     return Some(PatternChar::Literal(c.value));
                 } else {
                     self.next_quoted = c.value == '\\';
